@@ -76,9 +76,10 @@ func run(c *vf.Ctx, name string, public, withCB bool, nblocks int) {
 		return
 	}
 	g := rig.NewGen(w, c.Rand("gen/"+name))
+	g.Kinds = append(append([]string{}, rig.DefaultKinds...), "deploy-fail")
 	if !public {
 		// chains that are not public know REDEPLOY (the creator replaces a contract's code)
-		g.Kinds = append(append([]string{}, rig.DefaultKinds...), "redeploy", "redeploy-fail", "redeploy-fail", "call-inc", "deploy")
+		g.Kinds = append(g.Kinds, "redeploy", "redeploy-fail", "redeploy-fail", "call-inc", "deploy")
 	}
 	r := c.Rand("mix/" + name)
 	for no := uint64(1); no <= uint64(nblocks); no++ {
